@@ -33,6 +33,9 @@ QViol(e) ==
   \cup (IF ~FrameOK(e) THEN {[l |-> l, prop |-> "C04", what |-> "context fingerprint changed by " \o e.k, n |-> 1, first |-> 0]} ELSE {})
   \cup (IF e.k = "completion" /\ hasText THEN
           NonEmpty({Viol("C06", "edit range does not reach the cursor", BadEdits(e.p, e.f, e)),
+                    \* (C06 says "whose range is well formed": the C02 predicate on the candidates' edit ranges)
+                    Viol("C06", "ill-formed edit range of a completion candidate",
+                         {i \in BadRanges(e) : e.rs[i][8] \in {".List[].TextEdit.Range", ".List[].AdditionalTextEdits[].Range"}}),
                     Viol("C06", "tab-stops not consecutive / repeated", BadStops(e))})
           \cup (IF e.maxlen > MaxCandidates THEN {[l |-> l, prop |-> "C06", what |-> "more than MaxCandidates", n |-> e.maxlen, first |-> 0]} ELSE {})
           \cup (IF e.plainbad > 0 THEN {[l |-> l, prop |-> "C06", what |-> "tab-stop syntax in plain text", n |-> e.plainbad, first |-> 0]} ELSE {})
